@@ -106,6 +106,34 @@ func runCLI(c *fw.Ctx, env *cli.Env, cls, enc string, args []string, stdin []byt
 	return outs, true
 }
 
+// cliCacheTwin runs main the way users do (cache on) over a fresh cache
+// directory in which its nearest sibling invocation (sib; nil: none) and the
+// same invocation on a slightly different input have just run. Twice in a row
+// it must print what it prints with --no-cache.
+func cliCacheTwin(c *fw.Ctx, env *cli.Env, cls, enc string, sib, main []string, stdin []byte) {
+	ref := env.Run(append(append([]string{}, main...), "--no-cache"), stdin, nil, 60*time.Second)
+	if ref.TimedOut {
+		return
+	}
+	env.ResetCache()
+	if sib != nil {
+		env.Run(sib, stdin, nil, 60*time.Second)
+	}
+	other := bytes.Replace(stdin, []byte("DEFINITION  "), []byte("DEFINITION  another "), 1)
+	if !bytes.Equal(other, stdin) {
+		env.Run(main, other, nil, 60*time.Second)
+	}
+	for pass := 0; pass < 2; pass++ {
+		got := env.Run(main, stdin, nil, 60*time.Second)
+		if got.TimedOut || got.Exit != ref.Exit || !bytes.Equal(got.Stdout, ref.Stdout) {
+			c.Violate(cls+":cached-run-differs", enc+fmt.Sprintf("  (cache on, pass %d, after: gts %s and the same command on another input)", pass+1, strings.Join(sib, " ")),
+				fmt.Sprintf("exit %d and the %d bytes of the --no-cache run", ref.Exit, len(ref.Stdout)), fmt.Sprintf("exit %d, %d bytes: %s", got.Exit, len(got.Stdout), clipB(got.Stdout, 300)))
+			return
+		}
+	}
+	c.Bucket(cls + " cache-on")
+}
+
 // ---- C19: gts select ----
 
 func cliSelect(c *fw.Ctx) {
@@ -192,6 +220,21 @@ func cliSelect(c *fw.Ctx) {
 		outs, ok := runCLI(c, env, "cli:select", enc, args, text)
 		if !ok {
 			continue
+		}
+		if it%3 == 0 {
+			// sibling: the same selection with -v toggled.
+			sib := append([]string{}, args...)
+			if invert {
+				for i, a := range sib {
+					if a == "-v" {
+						sib = append(sib[:i], sib[i+1:]...)
+						break
+					}
+				}
+			} else {
+				sib = append(sib, "-v")
+			}
+			cliCacheTwin(c, env, "cli:select", enc, sib, args, text)
 		}
 		if len(outs) != nrec {
 			c.Violate("cli:select:record-count", enc, fmt.Sprint(nrec), fmt.Sprint(len(outs)))
@@ -370,6 +413,21 @@ func cliSearch(c *fw.Ctx) {
 			c.Bucket("cli:search stream")
 		}
 		outs, ok := runCLI(c, env, "cli:search", enc, args, stdin.Bytes())
+		if ok && it%3 == 0 {
+			// sibling: the same search with -e toggled.
+			sib := append([]string{}, args...)
+			if exact {
+				for i, a := range sib {
+					if a == "-e" {
+						sib = append(sib[:i], sib[i+1:]...)
+						break
+					}
+				}
+			} else {
+				sib = append(sib, "-e")
+			}
+			cliCacheTwin(c, env, "cli:search", enc, sib, args, stdin.Bytes())
+		}
 		if qarg[0] != '@' {
 			os.Remove(qarg)
 		}
@@ -490,6 +548,9 @@ func cliReverseComplement(c *fw.Ctx) {
 		if len(outs) != nrec {
 			c.Violate("cli:"+cmd+":record-count", enc, fmt.Sprint(nrec), fmt.Sprint(len(outs)))
 			continue
+		}
+		if it%3 == 0 {
+			cliCacheTwin(c, env, "cli:"+cmd, enc, []string{[]string{"complement", "reverse"}[it%2]}, []string{cmd}, text)
 		}
 		for k, gb := range recs {
 			L := len(seqs[k])
@@ -652,6 +713,9 @@ func cliRepair(c *fw.Ctx) {
 		if !ok {
 			continue
 		}
+		if it%3 == 0 {
+			cliCacheTwin(c, env, "cli:repair", enc, nil, []string{"repair"}, s2)
+		}
 		outs, err := parseOut(s3)
 		if err != nil || len(outs) != 1 {
 			c.Violate("cli:repair-pipeline:output", enc, "1 readable record", fmt.Sprintf("%d records err=%v", len(outs), err))
@@ -690,7 +754,7 @@ func cliFasta(c *fw.Ctx) {
 	}
 	defer os.RemoveAll(env.Root)
 	r := c.Rng
-	cmds := [][]string{{"clear"}, {"reverse"}, {"complement"}, {"select", "gene"}, {"sort"}, {"clear"}}
+	cmds := [][]string{{"clear"}, {"reverse"}, {"complement"}, {"select", "gene"}, {"sort"}, {"clear"}, {"pick", "1"}}
 	lens := []int{1, 69, 70, 71, 139, 140, 141, 210}
 	N := c.Pick(48, 600)
 	for it := 0; it < N; it++ {
@@ -702,8 +766,8 @@ func cliFasta(c *fw.Ctx) {
 		rr := rand.New(rand.NewSource(seed))
 		cmd := cmds[it%len(cmds)]
 		k := 1 + rr.Intn(3)
-		if cmd[0] == "sort" {
-			k = 1 // the order of a sorted stream is not this property's subject
+		if cmd[0] == "sort" || cmd[0] == "pick" {
+			k = 1 // the order of a sorted stream / which records are picked is not this property's subject
 		}
 		var stdin bytes.Buffer
 		var wantD []string
@@ -789,6 +853,22 @@ func cliFasta(c *fw.Ctx) {
 				c.Violate("cli:fasta:output", enc, clipS(want, 1500), clipS(text, 1500))
 				continue
 			}
+		}
+		// -F decides the format, whatever the name of the -o file suggests.
+		ext := []string{".gb", ".genbank", ".fasta", ".txt", ""}[rr.Intn(5)]
+		outp := env.File("c17out" + ext)
+		os.MkdirAll(filepath.Dir(outp), 0755)
+		os.Remove(outp)
+		ro := env.Run(append(append([]string{}, args...), "--no-cache", "-o", outp), stdin.Bytes(), nil, 60*time.Second)
+		ob, rerr := os.ReadFile(outp)
+		os.Remove(outp)
+		c.Bucket("cli:fasta -o")
+		if ro.TimedOut || ro.Exit != 0 || rerr != nil || !bytes.Equal(ob, res.Stdout) {
+			c.Violate("cli:fasta:-o-file-differs-from-stdout", enc+" -o c17out"+ext, clipS(text, 1200), fmt.Sprintf("exit %d err=%v: %s", ro.Exit, rerr, clipS(string(ob), 1200)))
+			continue
+		}
+		if it%3 == 0 {
+			cliCacheTwin(c, env, "cli:fasta", enc, append([]string{}, cmd...), args, stdin.Bytes())
 		}
 		// FASTA in, FASTA out.
 		res2 := env.Run([]string{"clear", "-F", "fasta", "--no-cache"}, res.Stdout, nil, 60*time.Second)
